@@ -198,6 +198,7 @@ class SimSocket(object):
         self.closed_t = None
         self.closed_by = None
         self.opened_seq = Sim.current.nlog
+        self.opened_t = Sim.current.vnow()
         try:
             import sys as _sys
             f = _sys._getframe(1)
